@@ -60,7 +60,8 @@ Inductive act :=
 | AFreeze (j : nat)
 | ADrop (j : nat)
 | ATryReclaim (j : nat) (k : nat)     (* is_unique load reading message k *)
-| AStep (k : nat).
+| AStep (k : nat)
+| AUnsplit (j1 j2 : nat).             (* BytesMut::unsplit of two handles of one thread: j1 takes j2's cells, j2's reference is released *)
 
 Definition tstep (o : ords) (s : state) (i : nat) (a : act) : option outcome :=
   th ← ths s !! i;
@@ -100,6 +101,15 @@ Definition tstep (o : ords) (s : state) (i : nat) (a : act) : option outcome :=
           let K' := if is_acq (o_uniq o) then t_K th ∪ m_view m else t_K th in
           Some (St (upd s i (mk K' k (t_hs th) (t_next th) (if decide (m_val m = 1) then Reclaim else Idle) (t_mine th)) (msgs s)))
         else None
+      else None
+  | Idle, AUnsplit j1 j2 =>
+      h1 ← t_hs th !! j1; h2 ← t_hs th !! j2;
+      if decide (j1 = j2) then None else
+      if h_mut h1 && h_mut h2 then
+        if freed s then Some UAF else
+        let '(K', ms, old) := rmw (o_dec o) pred s th in
+        Some (St (upd s i (mk K' (length (msgs s)) (<[j1 := {| h_cells := h_cells h1 ∪ h_cells h2; h_mut := true |}]> (delete j2 (t_hs th))) (t_next th)
+                             (if decide (old = 1) then DropLoad else Idle) (t_mine th)) ms))
       else None
   | Reclaim, AStep _ =>
       (* sole holder: copy the view to the front and take the whole buffer: a write to every cell *)
